@@ -231,6 +231,9 @@ func c14GenSpec(rng *Rng, big bool) string {
 				ref = ""
 			case 2:
 				ref = rng.Pick(c14BadRefs)
+				if big && len(ref) > 10 {
+					ref = "A0" // csz compares slot counts only: keep the column-overflow name to the cs ops
+				}
 			case 3:
 				col, _ := xl.ColumnNumberToName(rng.Range(1, 12))
 				ref = col + strconv.Itoa(rng.Range(1, 12))
